@@ -400,6 +400,21 @@ impl ReplySizes {
                 cases.push((cw, r));
             }
         }
+        // replies whose *last* packet is the large one: an ERR with a message of w bytes, at once
+        // (rows = MAX-1) and behind two rows (rows = MAX-2)
+        let mut errs: Vec<usize> = (0..=2000).collect();
+        for c in [4096usize, 16_384, 65_536, 131_072, 262_144, 1 << 20] {
+            errs.extend(c - 12..=c + 12);
+        }
+        errs.extend([70_000, 200_000, 3_000_000]);
+        for w in errs {
+            if w <= max_total.max(200_000) * 20 {
+                cases.push((w, usize::MAX - 1));
+                if w % 7 == 0 || w > 2000 {
+                    cases.push((w, usize::MAX - 2));
+                }
+            }
+        }
         ReplySizes { cases }
     }
 }
@@ -412,19 +427,27 @@ impl Family for ReplySizes {
     }
     fn run(&self, idx: u64, st: &mut Stats) -> Result<(), Violation> {
         let (w, r) = self.cases[idx as usize];
-        let by_rows = r != usize::MAX;
+        let by_rows = r < usize::MAX - 2;
+        let err_kind = if r == usize::MAX - 1 { 1 } else if r == usize::MAX - 2 { 2 } else { 0 };
         st.nontrivial += 1;
         st.bump("reply_sizes");
         let cols = Arc::new(vec![col("c", ColumnType::MYSQL_TYPE_BLOB, ColumnFlags::empty())]);
         let mut prog = vec![WOp::Start(cols)];
-        if by_rows {
+        if err_kind == 1 {
+            prog = vec![WOp::Error(msql_srv::ErrorKind::ER_NO, vec![b'e'; w])];
+        } else if err_kind == 2 {
+            prog.push(WOp::WriteRow(vec![Val::Bytes(vec![b'a'; 3])]));
+            prog.push(WOp::WriteRow(vec![Val::Bytes(vec![b'b'; 3])]));
+            prog.push(WOp::FinishError(msql_srv::ErrorKind::ER_NO, vec![b'e'; w]));
+        } else if by_rows {
             for _ in 0..r {
                 prog.push(WOp::WriteRow(vec![Val::Bytes(vec![b'r'; w])]));
             }
+            prog.push(WOp::Finish);
         } else {
             prog.push(WOp::WriteRow(vec![Val::Bytes(vec![b'w'; w])]));
+            prog.push(WOp::Finish);
         }
-        prog.push(WOp::Finish);
         let prog = Arc::new(prog);
         let conv = Conv::new(vec![q(b"size"), ping()]);
         let s = conv.stream();
@@ -443,7 +466,12 @@ impl Family for ReplySizes {
             _ => Behavior::Silent,
         })));
         st.transitions += o.sim.n_reads as u64;
-        let shape = if by_rows { format!("{} rows of one {}-byte cell", r, w) } else { format!("one row of one {}-byte cell", w) };
+        let shape = match err_kind {
+            1 => format!("an ERR packet with a message of {} bytes", w),
+            2 => format!("two rows and then an ERR packet with a message of {} bytes", w),
+            _ if by_rows => format!("{} rows of one {}-byte cell", r, w),
+            _ => format!("one row of one {}-byte cell", w),
+        };
         if let ConnResult::Panic(l, m) = &o.res {
             return Err(Violation::new(panic_key(l, m), format!("run_on panicked at {}: {}", l, m)));
         }
@@ -461,7 +489,16 @@ impl Family for ReplySizes {
     }
     fn describe(&self, idx: u64) -> J {
         let (w, r) = self.cases[idx as usize];
-        json!({"reply": if r != usize::MAX { format!("{} rows of one {}-byte cell", r, w) } else { format!("one row with one cell of {} bytes", w) }, "client": "strict lock-step"})
+        let reply = if r == usize::MAX - 1 {
+            format!("an ERR packet with a message of {} bytes", w)
+        } else if r == usize::MAX - 2 {
+            format!("two rows, then an ERR packet with a message of {} bytes", w)
+        } else if r != usize::MAX {
+            format!("{} rows of one {}-byte cell", r, w)
+        } else {
+            format!("one row with one cell of {} bytes", w)
+        };
+        json!({"reply": reply, "client": "strict lock-step"})
     }
 }
 
@@ -551,32 +588,43 @@ impl Family for LargeRequests {
 /// header of the second: the reply to the first is owed as soon as the first is complete, even
 /// while the second is only partly there
 struct TwoLargeRequests {
-    cases: Vec<(usize, usize, Vec<usize>)>,
+    /// (payload bytes of the first and the second large request, cuts, a short query in between)
+    cases: Vec<(usize, usize, Vec<usize>, bool)>,
 }
 impl TwoLargeRequests {
-    fn conv(a: usize, b: usize) -> Conv {
+    fn conv(a: usize, b: usize, mid: bool) -> Conv {
         let ta: Vec<u8> = (0..a - 1).map(|i| b'a' + ((i * 3 + i / 251) % 26) as u8).collect();
         let tb: Vec<u8> = (0..b - 1).map(|i| b'A' + ((i * 7 + i / 249) % 26) as u8).collect();
+        if mid {
+            return Conv::new(vec![q(&ta), q(b"a short one in between"), q(&tb), ping()]);
+        }
         Conv::new(vec![q(&ta), q(&tb), ping()])
     }
     fn new(pairs: &[(usize, usize)]) -> Self {
         let mut cases = Vec::new();
         for &(a, b) in pairs {
-            let s = Self::conv(a, b).stream();
-            let mut cands: Vec<usize> = Vec::new();
-            for h in s.headers.iter().filter(|h| **h >= s.ends[1] && **h < s.ends[2]) {
-                for d in [-1i64, 0, 1, 3, 4, 5] {
-                    let p = *h as i64 + d;
-                    if p > s.ends[0] as i64 && (p as usize) < s.ends[2] {
-                        cands.push(p as usize);
+            for mid in [false, true] {
+                let s = Self::conv(a, b, mid).stream();
+                // the second large request is the last command but one
+                let (from, to) = (s.ends[s.ends.len() - 3], s.ends[s.ends.len() - 2]);
+                let mut cands: Vec<usize> = Vec::new();
+                for h in s.headers.iter().filter(|h| **h >= from && **h < to) {
+                    for d in [-1i64, 0, 1, 3, 4, 5] {
+                        let p = *h as i64 + d;
+                        if p > s.ends[0] as i64 && (p as usize) < to {
+                            cands.push(p as usize);
+                        }
                     }
                 }
-            }
-            cands.sort();
-            cands.dedup();
-            cases.push((a, b, vec![]));
-            for c in cands {
-                cases.push((a, b, vec![c]));
+                // ... and somewhere inside each of its packets
+                cands.push(from + 4 + 1000);
+                cands.push(to - 20);
+                cands.sort();
+                cands.dedup();
+                cases.push((a, b, vec![], mid));
+                for c in cands {
+                    cases.push((a, b, vec![c], mid));
+                }
             }
         }
         TwoLargeRequests { cases }
@@ -593,20 +641,20 @@ impl Family for TwoLargeRequests {
         Some(6)
     }
     fn run(&self, idx: u64, st: &mut Stats) -> Result<(), Violation> {
-        let (a, b, cuts) = &self.cases[idx as usize];
+        let (a, b, cuts, mid) = &self.cases[idx as usize];
         st.nontrivial += 1;
         st.bump("two_large_requests");
-        let conv = Self::conv(*a, *b);
+        let conv = Self::conv(*a, *b, *mid);
         let s = conv.stream();
         let stream = Arc::new(s.bytes.clone());
         run_sched(&conv, &s, &stream, &[], cuts.clone(), st).map_err(|mut v| {
-            v.msg = format!("requests of {} and {} payload bytes, cuts {:?}: {}", a, b, cuts, v.msg);
+            v.msg = format!("requests of {} and {} payload bytes{}, cuts {:?}: {}", a, b, if *mid { " with a short query in between" } else { "" }, cuts, v.msg);
             v
         })
     }
     fn describe(&self, idx: u64) -> J {
-        let (a, b, cuts) = &self.cases[idx as usize];
-        json!({"request_payload_bytes": [a, b], "cuts": cuts, "client": "pipelined"})
+        let (a, b, cuts, mid) = &self.cases[idx as usize];
+        json!({"request_payload_bytes": [a, b], "short_query_in_between": mid, "cuts": cuts, "client": "pipelined"})
     }
 }
 
